@@ -52,7 +52,10 @@ def run(tier):
     rep = None
     states = trans = 0
     for bnd, strd, rewrite in ((bounds, stride, False), (rbounds, rstride, True)):
-        r = core.tlc("MC_GitRepo", cfg(*bnd, rewrite=rewrite), "c02-mc", workers=12, timeout=14400)
+        # one worker = strict breadth-first order: the witness of every repository is a shortest one, so the
+        # MaxOps bound on the (hidden) history cuts nothing that is reachable within MaxOps operations;
+        # with several workers a state can first be reached by a longer path and lose successors (< 1 %)
+        r = core.tlc("MC_GitRepo", cfg(*bnd, rewrite=rewrite), "c02-mc", workers=1 if tier == "quick" else 12, timeout=14400)
         core.log("C02: TLC MC_GitRepo %s%s: %d states, %d distinct repositories, %.1fs"
                  % (bnd[:3], " with reset --hard / commit --amend / tag -f" if rewrite else "", r["states"], r["distinct"], r["wall"]))
         rp = core.zv(["replay", "gitrepo", r["out_path"], strd], timeout=28800)
